@@ -487,6 +487,16 @@ func (c *SimConn) InflightTo() int {
 	return c.In.inflightLen()
 }
 
+// ArrivedTo returns how many bytes of the stream towards this endpoint have reached its host:
+// what the endpoint has been handed plus what is past its network delay and waits in the
+// socket buffer for the next read.
+func (c *SimConn) ArrivedTo() int {
+	s := c.n.s
+	s.Mu.Lock()
+	defer s.Mu.Unlock()
+	return c.In.Total + c.In.readyLen(time.Now())
+}
+
 // Drop forgets a finished connection pair (keeps long episodes linear).
 func (n *Net) Drop(cs ...*SimConn) {
 	n.s.Mu.Lock()
